@@ -88,7 +88,7 @@ def prop_race(ctx, case):
 
 
 PARTS = [
-    Part("engine", prop, strategy=cases, quick=4800, thorough=120000, shrink_budget=40),
+    Part("engine", prop, strategy=cases, quick=4800, thorough=60000, shrink_budget=40),
     Part("paused-racer", prop_race, enumerate=race_enumerate),
 ]
 # --- (c) several experiment processes submitting overlapping job sets -------------------------
